@@ -2,10 +2,13 @@ import Lox.Drv.Common
 import Lox.Rang3.Drv
 import Lox.Table.Drv
 import Lox.LR.Drv
+import Lox.LR.DrvDesugar
 import Lox.Lex.Drv
 import Lox.Lex.DrvRuntime
 import Lox.Dec.Drv
 import Lox.Dec.DrvTerminals
+import Lox.Dec.DrvAssign
+import Lox.Dec.DrvAnalyze
 /-! Line-protocol driver: one case per input line `area.op payload`, one answer per output line.
 Core-only imports so that this links as a `lean_exe`. -/
 
@@ -18,9 +21,9 @@ def dispatch (line : String) : String :=
   let r := match area with
     | "rang3" => Lox.Rang3.handle op payload
     | "table" => Lox.Table.handle op payload
-    | "lr" => Lox.LR.handle op payload
+    | "lr" => (Lox.LR.handle op payload).orElse fun _ => Lox.LR.handleDesugar op payload
     | "lex" => (Lox.Lex.handle op payload).orElse fun _ => Lox.Lex.Rt.handleRuntime op payload
-    | "dec" => (Lox.Dec.handle op payload).orElse fun _ => Lox.Dec.Terminals.handleTerminals op payload
+    | "dec" => (((Lox.Dec.handle op payload).orElse fun _ => Lox.Dec.Terminals.handleTerminals op payload).orElse fun _ => Lox.Dec.Assign.handleAssign op payload).orElse fun _ => Lox.Dec.Analyze.handleAnalyze op payload
     | _ => none
   r.getD "bad-op"
 
